@@ -108,6 +108,8 @@ type c02Case struct {
 	HistOC  int  `json:"history_origin_choice,omitempty"`
 	HistN   int  `json:"history_length,omitempty"`
 	HistRev bool `json:"history_reversed,omitempty"`
+	// Preset: index into c02Presets (what the response header map already holds when the middleware runs)
+	Preset int `json:"preset_response_headers,omitempty"`
 }
 
 // c02IntentsFor is set by checkC02 before anything else (the judge needs the alphabet to replay a history).
@@ -186,12 +188,31 @@ func c02Browse(h http.Handler, in ref.Intent, perturb int) (bool, string) {
 
 // c02BrowseRec is c02Browse with a caller-supplied recorder (cleared before each use).
 func c02BrowseRec(h http.Handler, in ref.Intent, perturb int, rec *vlib.Rec) (bool, string) {
+	return c02BrowseRecP(h, in, perturb, rec, 0)
+}
+
+// c02Presets: what the response header map may already hold when the middleware runs (put there by an outer layer)
+// without bearing on the browser's CORS algorithm.
+var c02Presets = []map[string][]string{nil, {"Vary": {"Origin"}}, {"Vary": {"Accept-Encoding", "Origin"}}, {"Vary": {"origin, Access-Control-Request-Headers"}}, {"X-Up": {"1"}, "Vary": {"Cookie"}},
+	{"Vary": {}, "Access-Control-Allow-Origin": nil}}
+
+func c02BrowseRecP(h http.Handler, in ref.Intent, perturb int, rec *vlib.Rec, preset int) (bool, string) {
+	install := func() {
+		rec.Reset()
+		for k, v := range c02Presets[preset] {
+			if v == nil {
+				rec.H[k] = nil
+			} else {
+				rec.H[k] = append([]string{}, v...)
+			}
+		}
+	}
 	if ref.NeedsPreflight(in) {
 		w := ref.PreflightWire(in)
 		if l, ok := w.Hdr["Access-Control-Request-Headers"]; ok {
 			w.Hdr["Access-Control-Request-Headers"] = c02Perturb(l, perturb)
 		}
-		rec.Reset()
+		install()
 		h.ServeHTTP(rec, vlib.Req{Method: w.Method, Hdr: w.Hdr}.HTTP())
 		st := rec.Status
 		if st == 0 {
@@ -202,7 +223,7 @@ func c02BrowseRec(h http.Handler, in ref.Intent, perturb int, rec *vlib.Rec) (bo
 		}
 	}
 	w := ref.ActualWire(in)
-	rec.Reset()
+	install()
 	h.ServeHTTP(rec, vlib.Req{Method: w.Method, Hdr: w.Hdr}.HTTP())
 	if !ref.CORSCheck(in, ref.Reply{Status: 200, Hdr: rec.H}) {
 		return false, fmt.Sprintf("CORS check failed on the actual response (headers %v)", rec.H)
@@ -230,10 +251,10 @@ func c02Judge(k c02Case) *vlib.Failure {
 			c02BrowseRec(h, in, 0, rec)
 		}
 	}
-	got, why := c02Browse(h, k.Intent, k.Perturb)
+	got, why := c02BrowseRecP(h, k.Intent, k.Perturb, vlib.NewRec(), k.Preset)
 	want := ref.Permits(k.Cfg.Policy(), k.Intent)
 	if got != want {
-		return vlib.Failf("browser verdict=%t (%s) but the configuration permits the request: %t; config=%s intent=%+v debug=%t perturbation=%d route=%q warm origin=%q intents served before on the same handler=%d (reversed: %t)", got, why, want, k.Cfg.GoLiteral(), k.Intent, k.Debug, k.Perturb, routeNames[k.Route], k.WarmOrigin, k.HistN, k.HistRev)
+		return vlib.Failf("browser verdict=%t (%s) but the configuration permits the request: %t; config=%s intent=%+v debug=%t perturbation=%d route=%q warm origin=%q intents served before on the same handler=%d (reversed: %t) pre-set response headers=%v", got, why, want, k.Cfg.GoLiteral(), k.Intent, k.Debug, k.Perturb, routeNames[k.Route], k.WarmOrigin, k.HistN, k.HistRev, c02Presets[k.Preset])
 	}
 	return nil
 }
@@ -475,8 +496,9 @@ func checkC02(c *vlib.Ctx) (string, string) {
 			h := bm.wrap(http.HandlerFunc(func(http.ResponseWriter, *http.Request) {}))
 			for j := len(ins) - 1; j >= 0; j-- {
 				evals++
-				if got, _ := c02BrowseRec(h, ins[j], 0, rec); got != ref.Permits(pol, ins[j]) {
-					k := c02Case{Cfg: lit, Intent: ins[j], Route: route, HistOC: ocOf[i], HistN: len(ins) - 1 - j, HistRev: true}
+				ps := 1 + j%(len(c02Presets)-1) // every pre-set variant in turn
+				if got, _ := c02BrowseRecP(h, ins[j], 0, rec, ps); got != ref.Permits(pol, ins[j]) {
+					k := c02Case{Cfg: lit, Intent: ins[j], Route: route, HistOC: ocOf[i], HistN: len(ins) - 1 - j, HistRev: true, Preset: ps}
 					if f := vlib.Guard(func() *vlib.Failure { return c02Judge(k) }); f != nil {
 						ck.Report(k, f)
 					} else {
